@@ -24,7 +24,9 @@ EXPLANATION = (
     "themselves are not decided.")
 NOT_DECIDED = ["equality of results over all interleavings (schedules)", "absence of deadlock / termination", "that no blob is left unreferenced by the index under every interleaving"]
 
-ORDERED = re.compile(r"^std::iter::Iterator::(filter_map|map|filter|try_for_each|inspect|for_each|peekable|by_ref|next)$"
+# every adaptor of std's sequential Iterator (and itertools) yields its items in an order that is a function of the
+# input order only - never of thread scheduling; the parallel stages allowed are pariter's order-preserving ones
+ORDERED = re.compile(r"^std::iter::Iterator::\w+$|^itertools::Itertools::\w+$|^<.* as std::iter::Iterator>::\w+$|^std::iter::(once|empty|repeat|from_fn|successors|zip)$"
                      r"|^pariter::(IteratorExt|readahead::ReadaheadIteratorExt|parallel_map::ParallelMapIteratorExt)?.*::(parallel_map_scoped|readahead_scoped|parallel_map|readahead|parallel_filter_scoped)$"
                      r"|IteratorExt::(parallel_map_scoped|readahead_scoped)$"
                      r"|^rustic_core::archiver::tree::TreeIterator::<T, I>::new$"
